@@ -83,6 +83,11 @@ let dmul_trunc a b =
 let dmul_up a b =
   chop_round_up (Z.mul a b)
 
+(** val dmul_int : coq_Z -> coq_Z -> coq_Z **)
+
+let dmul_int =
+  Z.mul
+
 (** val dquo : coq_Z -> coq_Z -> coq_Z **)
 
 let dquo a b =
